@@ -177,10 +177,10 @@ impl Config {
         let mut po = X::container(Ns::Xnm, "policy-options");
         for p in &self.policies {
             let mut ps =
-                X::container(Ns::Xnm, "policy-statement").kid(X::leaf(Ns::Xnm, "name", &p.name));
+                X::container(Ns::Xnm, "policy-statement").kid(X::new(Ns::Xnm, "name").text(&p.name));
             // (junos:comment attributes are not returned by the ephemeral database)
             for t in &p.terms {
-                let mut term = X::container(Ns::Xnm, "term").kid(X::leaf(Ns::Xnm, "name", &t.name));
+                let mut term = X::container(Ns::Xnm, "term").kid(X::new(Ns::Xnm, "name").text(&t.name));
                 if t.family.is_some() || !t.filters.is_empty() {
                     let mut from = X::container(Ns::Xnm, "from");
                     if let Some(f) = &t.family {
@@ -189,9 +189,9 @@ impl Config {
                     for (addr, range) in &t.filters {
                         from = from.kid(
                             X::container(Ns::Xnm, "route-filter")
-                                .kid(X::leaf(Ns::Xnm, "address", addr))
+                                .kid(X::new(Ns::Xnm, "address").text(addr))
                                 .kid(X::leaf(Ns::Xnm, "choice-ident", "prefix-length-range"))
-                                .kid(X::leaf(Ns::Xnm, "choice-value", range)),
+                                .kid(X::new(Ns::Xnm, "choice-value").text(range)),
                         );
                     }
                     term = term.kid(from);
